@@ -12,8 +12,9 @@ import shutil
 import sys
 import time
 
-from vlib import core
-from vlib.core import cz
+sys.path.insert(0, os.path.dirname(os.path.dirname(os.path.abspath(__file__))))
+from vlib import core  # noqa: E402
+from vlib.core import cz  # noqa: E402
 
 PID = "C40"
 PROPS_FILE = "Props/C40.v"
@@ -865,13 +866,16 @@ def rust_decl(d):
     return "".join(o)
 
 
-def rust_program(decls, values):
+def rust_program(decls, values, only_last=False):
     o = [PRELUDE]
     for d in decls:
         o.append(rust_decl(d))
         o.append("\n")
     o.append("fn main() {\n    std::panic::set_hook(Box::new(|_| {}));\n")
-    for i, (d, vals) in enumerate(zip(decls, values)):
+    shown = list(zip(decls, values))
+    if only_last:
+        shown = shown[-1:]
+    for i, (d, vals) in enumerate(shown):
         o.append("    ty_line::<%s>(%d);\n" % (d["rname"], i))
         for k, (v, mu, pos) in enumerate(vals):
             o.append("    rt::<%s>(%d, %d, %s, %d, %d);\n" % (d["rname"], i, k, rust_val(("named", d), v), mu, pos))
@@ -985,7 +989,7 @@ def run(ctx):
         for d, vs, rr in zip(decls, vals, res):
             if rr[0] is None or any(x is None for x in rr[2]) or "UNSUPPORTED" in str(rr):
                 ctx.violations.append(("impl-crash", "no output for declaration " + decl_text(d),
-                                       {"case": json.dumps(strip(d)), "harness": HARNESS}))
+                                       {"case": case_json(d, vs), "harness": HARNESS}))
                 continue
             if not rr[1]:
                 ctx.broken.append("descriptor of %s has a non-default value in a field the model does not carry "
@@ -1017,7 +1021,7 @@ def run(ctx):
         d, vs, rr = cases[j]
         ctx.violations.append(("oracle", "property oracle rejects the behaviour of the derive on: %s  -> descriptor %s ; "
                                "round trips %s" % (texts[j], rr[0], [(o[0], o[2]) for o in rr[2]]),
-                               {"case": json.dumps(strip(d)), "values": [coq_val(("named", d), v[0]) for v in vs],
+                               {"case": case_json(d, vs), "values": [coq_val(("named", d), v[0]) for v in vs],
                                 "impl_output": rr, "harness": HARNESS}))
     if model_bad and not unknown:
         j = model_bad[0]
@@ -1095,8 +1099,170 @@ def distribution(cases):
     return dist
 
 
+# ---- replay support (`./check C40 --replay FILE` goes through harness/src/bin/c40.rs) ----------------------
+
+def unstrip(j, seen=None):
+    """inverse of strip(): JSON -> declaration (nested declarations shared by Rust name)"""
+    seen = {} if seen is None else seen
+
+    def ty(t):
+        if t is None:
+            return None
+        if t[0] == "named":
+            return ("named", unstrip(t[1], seen))
+        if t[0] in ("vec", "opt"):
+            return (t[0], ty(t[1]))
+        if t[0] == "arr":
+            return ("arr", ty(t[1]), t[2])
+        return tuple(t)
+
+    def val(v):
+        if v is None:
+            return None
+        if v[0] in ("p", "s", "e"):
+            return (v[0], v[1])
+        if v[0] in ("l", "r"):
+            return (v[0], [val(x) for x in v[1]])
+        if v[0] == "o":
+            return ("o", val(v[1]))
+        return ("u", v[1], val(v[2]))
+    if j["rname"] in seen:
+        return seen[j["rname"]]
+    d = {k: v for k, v in j.items() if k not in ("members", "variants")}
+    if j["kind"] == "struct":
+        d["members"] = [dict(m, ty=ty(m["ty"]), default=val(m["default"])) for m in j["members"]]
+    elif j["kind"] == "union":
+        d["variants"] = [dict(v, ty=ty(v["ty"])) for v in j["variants"]]
+    else:
+        d["variants"] = [tuple(v) for v in j["variants"]]
+    seen[j["rname"]] = d
+    return d
+
+
+def closure(d, out):
+    """the declaration and everything it names, dependencies first"""
+    ts = [m["ty"] for m in d["members"]] if d["kind"] == "struct" else \
+         [v["ty"] for v in d["variants"] if v["ty"] is not None] if d["kind"] == "union" else []
+
+    def walk(t):
+        if t[0] == "named":
+            closure(t[1], out)
+        elif t[0] in ("vec", "arr", "opt"):
+            walk(t[1])
+    for t in ts:
+        walk(t)
+    if d not in out:
+        out.append(d)
+    return out
+
+
+def jval(v):
+    if v is None:
+        return None
+    if v[0] in ("l", "r"):
+        return [v[0], [jval(x) for x in v[1]]]
+    if v[0] == "o":
+        return ["o", jval(v[1])]
+    if v[0] == "u":
+        return ["u", v[1], jval(v[2])]
+    return list(v)
+
+
+def case_json(d, vs):
+    return json.dumps({"decl": strip(d), "values": [[jval(v), mu, pos] for v, mu, pos in vs]})
+
+
+def parse_line(line):
+    j = json.loads(line)
+    seen = {}
+    d = unstrip(j["decl"], seen)
+
+    def val(v):
+        if v is None:
+            return None
+        if v[0] in ("p", "s", "e"):
+            return (v[0], v[1])
+        if v[0] in ("l", "r"):
+            return (v[0], [val(x) for x in v[1]])
+        if v[0] == "o":
+            return ("o", val(v[1]))
+        return ("u", v[1], val(v[2]))
+    return (d, [(val(v), mu, pos) for v, mu, pos in j["values"]])
+
+
+def case_line(c):
+    return case_json(c[0], c[1])
+
+
+def case_term(c, out):
+    d, vs = c
+    if not out or out.startswith("ERROR") or "T 0" not in out:
+        return None
+    res = parse_output(out.replace(" @@ ", "\n"), [d], [vs])
+    rr = res[0]
+    if rr[0] is None or any(x is None for x in rr[2]):
+        return None
+    return case_term_of(d, vs, rr)
+
+
+def one_main():
+    """stdin: one case line -> stdout: the output of the one-declaration program"""
+    d, vs = parse_line(sys.stdin.read())
+    decls = closure(d, [])
+    for x in decls:
+        x.setdefault("seed", 0)
+    prog = rust_program(decls, [[] for _ in decls[:-1]] + [vs], only_last=True)
+    ctx = core.Ctx(PID, "quick", 0)
+    outs, err = build_and_run(ctx, [prog])
+    if outs is None:
+        print("ERROR " + " ".join(err.split())[-1500:])
+        return 1
+    keep = [l for l in outs[0].splitlines() if l.startswith("T 0 ") or l.startswith("V 0 ")]
+    print("\n".join(keep))
+    return 0
+
+
 MANIFEST = {
-    "text": "PARTIAL. (to be completed)",
-    "note": "",
-    "technique": "Coq proof + generated-program differential correspondence",
+    "text": ("PARTIAL by nature: rustc, syn parsing and macro hygiene are exercised only through generated programs; "
+             "what is proved is a Coq model of the expansion of #[derive(DdsType)] (attributes.rs, type_support.rs, "
+             "enum_support.rs) and of the Type / DataStorageMapping / DynamicData code it expands to. Declarations are "
+             "terms of an inductive attribute language (struct / tuple struct / enum / union; name, extensibility, "
+             "nested, key, id, hashid, optional, non_serialized, default_value, try_construct, bit_bound, switch, "
+             "case, default; members of every primitive kind, String, Vec, arrays, Option and nested declared types). "
+             "Proved for ALL declarations and values of that language: (1) derive_roundtrip: for every declaration with "
+             "pairwise distinct member ids, distinct in-range enum discriminants, distinct first union labels and the "
+             "default variant last, create_sample(create_dynamic_sample(v)) = Some v, up to non_serialized members which "
+             "come back as their default; create_dynamic_sample panics exactly on the documented bare Option::None; "
+             "(2) ids: hashed ids are the little-endian u32 of the first four MD5 bytes of the member name (MD5 itself "
+             "is a Coq function, not a parameter), explicit ids are honoured in Mutable structures and IGNORED in "
+             "Final/Appendable ones, otherwise ids are sequential; un-hashed ids are pairwise distinct when every "
+             "explicit id is at least the automatic counter, in general distinctness is a decidable test that the macro "
+             "does not apply (witness: a clashing declaration is accepted and its values do not round trip); "
+             "(3) descriptor_reflects_declaration: the published description is a function of the declaration that "
+             "preserves names, order, ids, member type signatures, key/optional/must-understand flags, try_construct, "
+             "extensibility, nested flag, union labels and default flag, enum name and bit bound; the clause on enum "
+             "literal values is refuted (enums differing only in their literals have equal descriptions). "
+             "The model is tied to the code on every check: N random declarations plus the README examples are "
+             "pretty-printed into one Rust program built against /repo's current tree; its output (the real "
+             "<T as Type>::TYPE, the DynamicData produced by create_dynamic_sample, the result of create_sample, also on "
+             "DynamicData with a member removed or replaced) is compared with the model inside Coq, and an oracle written "
+             "from the XTypes rules and the README is applied to the implementation's output."),
+    "note": ("Trusted: Coq kernel + vm_compute; hand model DeriveModel.v (correspondence-checked each run); MD5 model "
+             "KeyHash/Md5Model.v; the declaration pretty-printer and the canonical printers inside the generated "
+             "program; rustc. Axioms: none. Not covered: generics, base_type, external, non-literal ids/labels, enum "
+             "discriminators, more than one #[dust_dds] attribute per item (only the first is read), user Default impls "
+             "other than derive/first-variant, NaN and -0.0. Recorded deviations of the real code (known findings, each "
+             "with a patch under proposed_fixes/): explicit id ignored outside Mutable; hashid not masked to 28 bits; "
+             "duplicate member ids accepted; enum literals not published; union default arm / implicit label order; "
+             "non_serialized member published as an ordinary member (Final/Appendable types cannot be serialized); "
+             "Vec<i8> published as sequence<uint8> (cannot be serialized). Documentation deviations: omitted `case` "
+             "is index+1 (README: 0-indexed index); default_value is used only with optional / try_construct = "
+             "USE_DEFAULT / non_serialized; a union variant field named `data` does not compile (macro hygiene); an "
+             "explicit id of u32::MAX makes the proc macro panic (overflow)."),
+    "technique": ("Coq proof (nested structural induction over declarations) + differential correspondence through "
+                  "generated programs, model and oracle evaluated in Coq"),
 }
+
+
+if __name__ == "__main__" and "--one" in sys.argv:
+    sys.exit(one_main())
